@@ -10,3 +10,28 @@ package structs
 //@   scope functional
 //@   requires p != nil
 //@   at call IsTrue#2 assert arg1 == p.Previous.ExitNum
+
+// ---- C15: foreach runs the body once per element, with the element bound verbatim ----------------------
+// One element: unless the loop was cancelled (before the element, or by an error that cancels it), the
+// element is bound to the loop variable with its data type, written to the body's stdin, and the block
+// is executed - exactly once (there is one Execute call site and no loop).
+//@ spec $metaSet(p ref, i int) bool
+//@ func setMetaValues [C15] trusted
+//@   ensures result == $metaSet(p, iteration)
+//@ func forEachInnerLoop [C15]
+//@   check none
+//@   requires p != nil
+//@   at call (*Variables).Set#1 assert varName != "!" && arg1 == p && arg2 == varName && arg3 == varValue && arg4 == dataType
+//@   at call (lang/stdio.Io).Writeln#2 assert arg0 == b && recv == fork.Stdin
+//@   at call (*Fork).Execute#1 assert arg1 == block
+//@   ensures imp(!called("dynamic") && $metaSet(p, iteration) && len(b) != 0 && !$hasCancelled(p), called("(*Fork).Execute"))
+// ... also for an element whose text is empty (known finding: the real code skips it)
+//@   ensures imp(!called("dynamic") && $metaSet(p, iteration) && len(b) == 0, called("(*Fork).Execute"))
+
+// The per-element callback of foreach (no --step): every element received is handed to the inner loop
+// unchanged, with its data type, numbered consecutively from 1.
+//@ func cmdForEachDefault$1 [C15]
+//@   check none
+//@   at call forEachInnerLoop#* assert arg0 == p && arg1 == block && arg2 == varName && arg5 == iteration
+//@   at call forEachInnerLoop#* assert imp(steps <= 0, arg3 == old(varValue) && arg4 == old(dataType))
+//@   ensures imp(steps <= 0, called("forEachInnerLoop") && iteration == old(iteration) + 1)
